@@ -296,8 +296,9 @@ func c06ChildTarget(c *core.Ctx, idx int) {
 	fkKind := []schema.FKKind{schema.FkIndexNullable, schema.FkIndex, schema.FkIndexCascade}[idx%3]
 	tasks := &schema.StoreDef{Type: "tasks", BasePath: []string{"stores"},
 		// levels: a set of integers with a set index (the strategy writes the list bucket itself)
-		Fields: []schema.Field{{Name: "lead", Kind: schema.KStr, FK: leadKey}, {Name: "levels", Kind: schema.KI64Set}},
-		SetIdx: []string{"levels"},
+		// code: a unique-indexed field that holds the entity's own id (a natural key used as the id)
+		Fields: []schema.Field{{Name: "lead", Kind: schema.KStr, FK: leadKey}, {Name: "levels", Kind: schema.KI64Set}, {Name: "code", Kind: schema.KStr}},
+		SetIdx: []string{"levels"}, Unique: []schema.UniqueDef{{Field: "code", Nullable: true}},
 		FKs:    []schema.FKDef{{Field: "lead", Target: leadKey, Kind: fkKind, BackRef: "tasks"}}}
 	sc := schema.Build([]*schema.StoreDef{people, leads, tasks})
 	path := c.TempFile("c06t")
@@ -378,7 +379,7 @@ func c06ChildTarget(c *core.Ctx, idx int) {
 				continue
 			}
 			opErr = db.Update(nil, func(ctx boltz.MutateContext) error {
-				return tst.Store.Create(ctx, &schema.Ent{Id: id, Typ: "tasks", V: map[string]any{"lead": lead, "levels": []int64{7, int64(step % 3), -1}}})
+				return tst.Store.Create(ctx, &schema.Ent{Id: id, Typ: "tasks", V: map[string]any{"lead": lead, "code": id, "levels": []int64{7, int64(step % 3), -1}}})
 			})
 			if opErr == nil {
 				refs[id] = lead
@@ -403,7 +404,7 @@ func c06ChildTarget(c *core.Ctx, idx int) {
 				continue
 			}
 			opErr = db.Update(nil, func(ctx boltz.MutateContext) error {
-				return tst.Store.Update(ctx, &schema.Ent{Id: id, Typ: "tasks", V: map[string]any{"lead": lead, "levels": []int64{7, int64(step%3) + 10}}}, nil)
+				return tst.Store.Update(ctx, &schema.Ent{Id: id, Typ: "tasks", V: map[string]any{"lead": lead, "code": id, "levels": []int64{7, int64(step%3) + 10}}}, nil)
 			})
 			if opErr == nil {
 				refs[id] = lead
